@@ -16,6 +16,11 @@ pub fn scale(s: i64) -> f32 { (2.0f64).powi(s as i32) as f32 }
 
 /// Builds the timeline described by a cfg object {kfs, de, tm} at `tick = 2^s` seconds.
 pub fn build_tl(cfg: &Value, pd: i64, pmap: &[usize], s: i64) -> P4Timeline {
+    config_tl(cfg, pd, pmap, s).build()
+}
+
+/// The un-built builder (TimelineConfiguration) for the same description.
+pub fn config_tl(cfg: &Value, pd: i64, pmap: &[usize], s: i64) -> TimelineConfiguration<P4KeyframeData> {
     let tm = &cfg["tm"];
     let tick = scale(s);
     let mut b = P4::timeline()
@@ -36,7 +41,7 @@ pub fn build_tl(cfg: &Value, pd: i64, pmap: &[usize], s: i64) -> P4Timeline {
         if e != 0 { k = k.easing(easing(e)); }
         b = b.keyframe(k);
     }
-    b.build()
+    b
 }
 
 /// start_with values: the override terms of the line for mapped props, sentinels+1000 elsewhere.
